@@ -22,7 +22,8 @@ FAM = {s.sid: s for s in S.family_F()}
 FAM['A1'] = apibfs.A1
 FAM['S5'] = Schema('S5', [Opt('str', 'sv', 'S'), Opt('int', 'iv', 'S'), Opt('str', 's', '', b'd'), Opt('str', 'sl', 'L', [b'a']), Opt('int', 'i', '', 5), Opt('float', 'f', '', 1.5), Opt('bool', 'b', '', True),
                           Opt('sec', 'mt', 'MT', sub=[Opt('str', 'v', '', b'x'), Opt('int', 'l', 'L', [b'1'])]), Opt('sec', 'sec', '', sub=[Opt('str', 'w', '', b'y')]),
-                          Opt('sec', 'kv', 'K', sub=[Opt('str', 'k0', '', b'v0')])])      # kv: free-form, its keys come from the text
+                          Opt('sec', 'kv', 'K', sub=[Opt('str', 'k0', '', b'v0')]),      # kv: free-form, its keys come from the text
+                          Opt('sec', 'ts', 'T', sub=[Opt('int', 'q', '', 1)])])       # a single section declared with a title: its one instance never gets one
 PRINTABLE = ['F01', 'F02', 'F03', 'F04', 'F05', 'F06', 'F07', 'F09', 'F10', 'F11', 'F15', 'F16', 'F18']
 META = [b'a', b'"', b'\\', b'$', b'{', b'}', b'\n', b'\r', b'\t', b'#', b'/', b'*', b"'", b' ', b',', b'=', b'\x01', b'\x7f', b'\x80', b'\xff']
 CM = CFGF['COMMENTS']
